@@ -30,7 +30,12 @@ TRUSTED_BASE = [
 ]
 ASSUMPTIONS = [
     "williamson's convention is V = S Db S^T (as used by its callers and tests); its docstring says S^T Db S",
-    "an invalid input that is accepted counts as a violation only if the returned factors are then wrong",
+    "an input that is invalid by a routine's own documentation (non-square, odd dimension, too small, NaN, not positive definite, "
+    "validity measure >= 3x (random stream) / 10x (guard sweep) the tolerance in force) must be rejected; in the guard sweep the "
+    "rejection must be the documented ValueError, not a later crash; inputs at 0.1x the tolerance must be decomposed to an accuracy "
+    "of the order of their inexactness (mesh, takagi, embeddings, williamson, bloch_messiah; the compact meshes self-check exactly)",
+    "element / nulling helpers (T, Ti, mach_zehnder(_inv), M, P, null*) are compared with their documented matrices; "
+    "covmat_to_hamil / hamil_to_covmat with H = S^-T arctanh(1/nu) S^-1",
     "inputs on the boundary of a routine's own tolerance may be accepted or rejected",
 ]
 MANIFEST_TEXT = ("proof: for every size n, commutative ring of scalars and parameter list, Coq proves that the nulling order of "
@@ -123,13 +128,18 @@ def mat_to_json(A):
     A = np.asarray(A)
     if np.iscomplexobj(A):
         return {"shape": list(A.shape), "re": [_fj(x) for x in A.real.ravel()], "im": [_fj(x) for x in A.imag.ravel()]}
-    return {"shape": list(A.shape), "re": [_fj(x) for x in A.ravel()]}
+    d = {"shape": list(A.shape), "re": [_fj(x) for x in A.ravel()]}
+    if A.dtype.kind in "iu":
+        d["dtype"] = "int"
+    return d
 
 
 def mat_from_json(d):
     re = np.array([float(v) for v in d["re"]], dtype=float).reshape(d["shape"])
     if "im" in d:
         return re + 1j * np.array([float(v) for v in d["im"]], dtype=float).reshape(d["shape"])
+    if d.get("dtype") == "int":
+        return re.astype(int)
     return re
 
 
@@ -573,10 +583,11 @@ def _evaluate(case):
             return "rejected:" + kind, ("%s:valid-input-raises:%s" % (routine, kind), "valid %s input raised %s: %s" % (case.get("kind"), kind, str(e)[:200])), None
         return "rejected:" + kind, None, None
     if valid is False:
-        # accepted an invalid input: only a violation if the result is then wrong
+        # an input that is invalid by the routine's own documentation (non-square, NaN, odd dimension, too small, clearly
+        # outside the tolerance, not positive definite) must be rejected, whatever comes out
         try:
             check_valid(routine, A, opts, res)
-            return "ok", None, res
+            return "ok", ("%s:invalid-accepted:%s" % (routine, case.get("kind")), "invalid input (%s) was decomposed without an error" % case.get("kind")), res
         except Bad as b:
             return "ok", ("%s:invalid-accepted:%s" % (routine, case.get("kind")), "invalid input (%s) was decomposed without an error, and wrongly: %s" % (case.get("kind"), b.msg)), res
         except Exception as e:  # noqa: BLE001
@@ -613,7 +624,7 @@ def bdiag(*blocks):
 NICE_ANGLES = [0.0, math.pi / 2, math.pi, -math.pi / 2, math.pi / 4, 0.3, 1.1, 2.5]
 
 UNITARY_KINDS = ["haar", "identity", "anti-identity", "permutation", "phase-permutation", "diagonal", "block", "embedded",
-                 "sparse", "dft", "real-orthogonal", "givens", "neg-identity", "special", "boundary-in", "tiny-rotation"]
+                 "sparse", "dft", "real-orthogonal", "givens", "neg-identity", "special", "boundary-in", "tiny-rotation", "int-permutation"]
 UNITARY_BAD = ["scaled", "random-complex", "non-square", "boundary-out", "nan", "row-isometry", "subunitary"]
 NONTRIVIAL_KINDS = None  # everything except the dense generic kinds, see is_nontrivial
 
@@ -629,6 +640,8 @@ def gen_unitary(rs, kind, n):
         return -np.eye(n, dtype=complex)
     if kind == "permutation":
         return np.eye(n)[rs.permutation(n)]
+    if kind == "int-permutation":
+        return np.eye(n, dtype=int)[rs.permutation(n)]
     if kind == "phase-permutation":
         ph = np.array([np.exp(1j * (NICE_ANGLES[rs.randint(len(NICE_ANGLES))] if rs.rand() < 0.5 else rs.uniform(-np.pi, np.pi))) for _ in range(n)])
         return np.eye(n)[rs.permutation(n)] * ph
@@ -706,7 +719,7 @@ def gen_unitary(rs, kind, n):
 
 SYMM_KINDS = ["complex", "real", "real-psd", "degenerate-complex", "rank-deficient-complex", "rank-deficient-real", "zero",
               "identity", "adjacency", "adjacency-complex", "phase-adjacency", "diagonal-signed", "diagonal-complex", "swap",
-              "tiny", "large", "degenerate-real", "unitary-symmetric", "rounding-boundary"]
+              "tiny", "large", "degenerate-real", "unitary-symmetric", "rounding-boundary", "nearly-real", "int-adjacency"]
 SYMM_BAD = ["asymmetric", "non-square", "nan", "slightly-asymmetric"]
 
 
@@ -729,6 +742,16 @@ def gen_symmetric(rs, kind, n):
             if kind.startswith("rank"):
                 d[-1] = 0.0
         return U @ np.diag(d) @ U.T
+    if kind == "int-adjacency":
+        A = np.triu((rs.rand(n, n) < 0.6).astype(int), 1)
+        A = A + A.T
+        if not A.any():
+            A[0, 0] = 1
+        return A
+    if kind == "nearly-real":
+        # a real symmetric matrix plus a small (but far above rounding) symmetric imaginary part
+        B = rs.randn(n, n); C = rs.randn(n, n)
+        return (B + B.T) + 1j * 10.0 ** rs.uniform(-9, -4) * (C + C.T)
     if kind == "rounding-boundary":
         # a degenerate singular value sitting exactly on a boundary of np.round(., 13)
         U = haar(n, rs)
@@ -810,7 +833,7 @@ def rand_symplectic(n, rs, s=None):
     return rand_orth_symp(n, rs) @ np.diag(np.concatenate([s, 1 / s])) @ rand_orth_symp(n, rs)
 
 
-COV_KINDS = ["random", "vacuum", "thermal-diag", "pure", "degenerate", "thermal-degenerate", "squeezed-diag", "scaled-vacuum"]
+COV_KINDS = ["random", "vacuum", "thermal-diag", "pure", "degenerate", "thermal-degenerate", "squeezed-diag", "scaled-vacuum", "int-diag"]
 COV_BAD = ["asymmetric", "odd", "indefinite", "non-square", "singular", "nan"]
 
 
@@ -824,6 +847,9 @@ def gen_cov(rs, kind, n):
         return np.eye(2 * n)
     if kind == "scaled-vacuum":
         return np.eye(2 * n) * rs.choice([0.5, 2.0, 1.0, 3.0])
+    if kind == "int-diag":
+        nu = rs.randint(1, 4, n)
+        return np.diag(np.concatenate([nu, nu])).astype(int)
     if kind == "thermal-diag":
         nu = rs.randint(1, 4, n).astype(float)
         return np.diag(np.concatenate([nu, nu]))
@@ -865,7 +891,7 @@ def _sym(A):
 
 
 SYMP_KINDS = ["random", "passive", "identity", "degenerate", "partially-passive", "diagonal-squeezer", "diagonal-antisqueezer",
-              "two-mode-squeezer", "passive-permutation", "mixed-degenerate", "near-passive", "rounding-boundary"]
+              "two-mode-squeezer", "passive-permutation", "mixed-degenerate", "near-passive", "rounding-boundary", "int-permutation"]
 SYMP_BAD = ["non-symplectic", "odd", "non-square", "scaled", "nan"]
 
 
@@ -876,6 +902,8 @@ def gen_symp(rs, kind, n):
         return rand_orth_symp(n, rs)
     if kind == "passive-permutation":
         return rand_orth_symp(n, rs, "permutation")
+    if kind == "int-permutation":
+        return np.rint(rand_orth_symp(n, rs, "permutation")).astype(int)
     if kind == "identity":
         return np.eye(2 * n)
     if kind == "degenerate":
@@ -980,7 +1008,7 @@ def gen_case(rng, routine=None, bad_fraction=0.2, max_n=7):
                 opts["rounding"] = rng.choice([13, 10, 8])
         else:
             if rng.random() < 0.7:
-                opts["mean_photon_per_mode"] = rng.choice([0.1, 0.5, 1.0, 2.5])
+                opts["mean_photon_per_mode"] = rng.choice([0.01, 0.1, 0.5, 1.0, 2.5, 10.0])
             if routine == "graph_embed" and rng.random() < 0.3:
                 opts["make_traceless"] = True
     elif routine == "williamson":
@@ -991,6 +1019,8 @@ def gen_case(rng, routine=None, bad_fraction=0.2, max_n=7):
         n = rng.randint(1, max(1, max_n // 2 + 1))
         kind = rng.choice(SYMP_BAD if bad else SYMP_KINDS)
         A = gen_symp(rs, kind, n)
+        if not bad and rng.random() < 0.25:
+            opts["rounding"] = rng.choice([9, 12, 7])
     else:
         raise KeyError(routine)
     return {"routine": routine, "kind": kind, "n": int(n), "opts": opts, "matrix": mat_to_json(A)}
@@ -1305,7 +1335,7 @@ GUARD_OPTS = {
     "rectangular_compact": [{}, {"rtol": 1e-9, "atol": 1e-9}, {"atol": 1e-7}, {"rtol": 1e-7}],
     "sun_compact": [{}, {"rtol": 1e-9, "atol": 1e-9}, {"atol": 1e-7}, {"rtol": 1e-7}],
     "takagi": [{}, {"tol": 1e-9}, {"tol": 1e-5}],
-    "graph_embed": [{}, {"rtol": 0.0, "atol": 1e-6}, {"rtol": 0.0, "atol": 1e-10}, {"rtol": 1e-3, "atol": 0.0}],
+    "graph_embed": [{}, {"rtol": 0.0, "atol": 1e-6}, {"rtol": 0.0, "atol": 1e-10}, {"rtol": 1e-3, "atol": 1e-12}],
     "graph_embed_deprecated": [{}, {"rtol": 0.0, "atol": 1e-6}, {"rtol": 0.0, "atol": 1e-10}],
     "williamson": [{}, {"tol": 1e-8}, {"tol": 1e-4}],
     "bloch_messiah": [{}, {"tol": 1e-7}, {"tol": 1e-4}],
@@ -1350,13 +1380,17 @@ def evaluate_guard(case):
     """case: {check:'guard', routine, opts, matrix, expect:'accept'|'reject', slack}.  Returns failure (sig, msg) or None."""
     routine, opts = case["routine"], dict(case.get("opts", {}))
     A = mat_from_json(case["matrix"])
-    tag = "default" if not opts else "+".join(sorted(opts))
+    tag = "default" if not opts else ",".join("%s=%g" % (k, opts[k]) for k in sorted(opts))
     try:
         res = call_routine(routine, A, opts)
     except Exception as e:  # noqa: BLE001
         if case["expect"] == "accept":
             return ("%s:guard:rejects-inside-tol:%s" % (routine, tag),
                     "input whose documented validity measure is %.2g x the tolerance (%s) raised %s: %s" % (case["ratio"], opts or "defaults", type(e).__name__, str(e)[:120]))
+        if not isinstance(e, ValueError):
+            # the validation did not fire; the routine only crashed later on the invalid input
+            return ("%s:guard:outside-tol-not-validated:%s:%s" % (routine, type(e).__name__, tag),
+                    "invalid input (validity measure %.3g x the tolerance, %s) passed the validation and failed later with %s instead of the documented ValueError" % (case["ratio"], opts or "defaults", type(e).__name__))
         return None
     if case["expect"] == "reject":
         return ("%s:guard:accepts-outside-tol:%s" % (routine, tag),
@@ -1374,9 +1408,58 @@ def evaluate_guard(case):
     return None
 
 
+def pd_boundary_cases(rs, reps):
+    """williamson: exactly symmetric matrices whose smallest eigenvalue is just below / at / just above zero."""
+    out = []
+    for _ in range(reps):
+        for lam, expect in ((-1e-2, "reject"), (-1e-5, "reject"), (-1e-8, "reject"), (0.0, "reject"), (1e-4, "accept"), (1e-2, "accept")):
+            n = rs.randint(1, 4)
+            ev = np.concatenate([[lam], rs.uniform(0.5, 3.0, 2 * n - 1)])
+            if lam == 0.0 or rs.rand() < 0.3:
+                X = np.diag(ev[rs.permutation(2 * n)])
+            else:
+                q, _ = np.linalg.qr(rs.randn(2 * n, 2 * n))
+                X = _sym(q @ np.diag(ev) @ q.T)
+            out.append({"check": "guard", "routine": "williamson", "opts": {}, "expect": expect, "ratio": lam, "slack": 0.0, "kind": "smallest-eigenvalue", "matrix": mat_to_json(X)})
+    return out
+
+
+def shape_cases(rs):
+    """Inputs that are invalid by their shape alone: the documented ValueError must be raised."""
+    out = []
+    def add(routine, A, kind):
+        out.append({"check": "guard", "routine": routine, "opts": {}, "expect": "reject", "ratio": float("inf"), "slack": 0.0, "kind": kind, "matrix": mat_to_json(A)})
+    for routine in UNITARY_ROUTINES:
+        n = rs.randint(2, 5)
+        add(routine, haar(n + 1, rs)[:, :n], "non-square-tall")
+        add(routine, haar(n + 1, rs)[:n, :], "non-square-wide")
+    for n in (1, 2):
+        add("sun_compact", haar(n, rs), "too-small")
+        add("sun_compact", np.eye(n), "too-small")
+    for routine in ("takagi", "graph_embed", "graph_embed_deprecated", "bipartite_graph_embed"):
+        add(routine, rs.randn(3, 2), "non-square-tall")
+        add(routine, rs.randn(2, 3), "non-square-wide")
+    for routine in ("williamson", "bloch_messiah"):
+        add(routine, rs.randn(4, 6), "non-square-wide")
+        add(routine, rs.randn(6, 4), "non-square-tall")
+        add(routine, np.eye(3) if routine == "bloch_messiah" else 2.0 * np.eye(3), "odd-dimension")
+        add(routine, np.eye(1), "odd-dimension")
+    return out
+
+
 def guard_sweep(ctx):
     rs = np.random.RandomState(ctx.rng.getrandbits(32))
     reps = ctx.budget(1, 4)
+    for case in shape_cases(rs):
+        ctx.case({"check": "guard-shape", "routine": case["routine"], "kind": case["kind"], "shape": case["matrix"]["shape"]}, nontrivial=True, bucket="guard/shape")
+        fail = evaluate_guard(case)
+        if fail:
+            ctx.counterexample(fail[0].replace(":default", ":" + case["kind"]), fail[1], case)
+    for case in pd_boundary_cases(rs, reps):
+        ctx.case({"check": "guard-pd", "lam": case["ratio"], "h": hash(tuple(str(v) for v in case["matrix"]["re"])) & 0xffffffff}, nontrivial=True, bucket="guard/williamson/pd-" + case["expect"])
+        fail = evaluate_guard(case)
+        if fail:
+            ctx.counterexample(fail[0].replace(":default", ":smallest-eigenvalue"), fail[1], case)
     for routine, optlist in GUARD_OPTS.items():
         for opts in optlist:
             for rep in range(reps):
@@ -1666,6 +1749,23 @@ def _report(ctx, case, fail):
     ctx.counterexample(fail[0], "%s on a %s input (n=%d): %s" % (case["routine"], case.get("kind"), case.get("n", -1), fail[1]), case)
 
 
+def structured_sweep(ctx):
+    sizes = ctx.budget([1, 2, 3, 4, 5, 8, 20], [1, 2, 3, 4, 5, 6, 7, 8, 9, 10, 12, 16, 20])
+    for n in sizes:
+        mats = {"identity": np.eye(n), "anti-identity": np.eye(n)[::-1].copy(), "neg-identity": -np.eye(n, dtype=complex),
+                "cyclic-shift": np.roll(np.eye(n), 1, axis=0), "dft": np.fft.fft(np.eye(n)) / np.sqrt(n),
+                "i-identity": 1j * np.eye(n, dtype=complex)}
+        for kind, A in mats.items():
+            for routine in UNITARY_ROUTINES:
+                if routine == "sun_compact" and n < 3:
+                    continue
+                case = {"routine": routine, "kind": kind, "n": n, "opts": {}, "matrix": mat_to_json(A)}
+                out, fail = evaluate(case)
+                ctx.case({"check": "structured", "routine": routine, "kind": kind, "n": n, "outcome": out}, nontrivial=True, bucket="structured/" + routine)
+                if fail:
+                    _report(ctx, case, fail)
+
+
 def search(ctx):
     """The property's own predicate on the implementation, for every anchored routine:
     valid input  -> factors have the promised structure and multiply back to the input;
@@ -1686,6 +1786,8 @@ def search(ctx):
         ctx.case({"corpus": name, "routine": case["routine"], "kind": case.get("kind"), "outcome": out}, nontrivial=True, bucket="corpus")
         if fail:
             _report(ctx, case, fail)
+    # deterministic families: structured unitaries of every size class through every mesh routine
+    structured_sweep(ctx)
     # deterministic families: validation guards just inside / outside every tolerance option; element, nulling and private helpers
     guard_sweep(ctx)
     helper_checks(ctx)
